@@ -633,7 +633,14 @@ func (g *c35G) genRTMP() *c35Input {
 				write(&message.Audio{ChunkStreamID: message.AudioChunkStreamID, MessageStreamID: 0x1000000, Codec: message.CodecMPEG4Audio, Rate: message.AudioRate44100, Depth: message.AudioDepth16, IsStereo: true, AACType: message.AudioAACTypeConfig,
 					AACConfig: &mpeg4audio.AudioSpecificConfig{Type: mpeg4audio.ObjectTypeAACLC, SampleRate: 44100, ChannelConfig: 2, ChannelCount: 2}}, "audio-config")
 			}
-			for i := 0; i < g.rng(0, 5); i++ {
+			// gortmplib analyses 2 s worth of timestamps before it reports the tracks: the frames span more than that,
+			// otherwise the publisher never reaches the path manager
+			nFrames := g.rng(4, 7)
+			if g.odd(8) {
+				nFrames = g.rng(0, 3)
+			}
+			step := 700 * time.Millisecond
+			for i := 0; i < nFrames; i++ {
 				k := g.x.Intn(3)
 				if g.odd(6) {
 					k = 3
@@ -646,14 +653,14 @@ func (g *c35G) genRTMP() *c35Input {
 						au = g.pickBytes([]byte{0xff, 0xff, 0xff, 0xff, 0x65}, []byte{0, 0, 0, 0}, []byte{0, 0, 0}, []byte{0, 0, 0, 1}, bytes.Repeat([]byte{0, 0, 0, 1, 0x09}, 500))
 					}
 					write(&message.Video{ChunkStreamID: message.VideoChunkStreamID, MessageStreamID: 0x1000000, Codec: message.CodecH264, IsKeyFrame: i == 0, Type: message.VideoTypeAU,
-						DTS: time.Duration(i) * 40 * time.Millisecond, PTSDelta: time.Duration(g.rng(-2, 2)) * 40 * time.Millisecond, AU: au}, "video-au")
+						DTS: time.Duration(i) * step, PTSDelta: time.Duration(g.rng(-2, 2)) * 40 * time.Millisecond, AU: au}, "video-au")
 				case 2:
 					au := []byte{0x21, 0x10, 0x04, 0x60, 0x8c, 0x1c}
 					if g.odd(6) {
 						au = g.pickBytes([]byte{0}, bytes.Repeat([]byte{0xff}, 3000))
 					}
 					write(&message.Audio{ChunkStreamID: message.AudioChunkStreamID, MessageStreamID: 0x1000000, Codec: message.CodecMPEG4Audio, Rate: message.AudioRate44100, Depth: message.AudioDepth16, IsStereo: true, AACType: message.AudioAACTypeAU,
-						DTS: time.Duration(i) * 23 * time.Millisecond, AU: au}, "audio-au")
+						DTS: time.Duration(i) * step, AU: au}, "audio-au")
 				default: // raw media messages: enhanced-RTMP headers, odd codecs
 					typ := uint8(message.TypeVideo)
 					if g.chance(2) {
@@ -668,7 +675,7 @@ func (g *c35G) genRTMP() *c35Input {
 						bc := bytecounter.NewWriter(&st.buf)
 						st.raw = rawmessage.NewWriter(bc, bc, false)
 					}
-					st.raw.Write(&rawmessage.Message{ChunkStreamID: byte(20 + i), Type: typ, MessageStreamID: 0x1000000, Timestamp: time.Duration(i) * 40 * time.Millisecond, Body: body}) //nolint:errcheck
+					st.raw.Write(&rawmessage.Message{ChunkStreamID: byte(20 + i), Type: typ, MessageStreamID: 0x1000000, Timestamp: time.Duration(i) * step, Body: body}) //nolint:errcheck
 					notes = append(notes, "raw-media")
 				}
 			}
